@@ -38,6 +38,33 @@ def primary_reported(r):
     return (own+': **reported**') in r[4]
 n=len(rows); ok=sum(1 for r in rows if primary_reported(r))
 out.append(f"\nSummary: {ok} of {n} seeded changes are reported by the quick tier of the check of the property they break.")
+# ---- behaviour-preserving changes (false-alarm probes)
+brows=[]
+for d in sorted(glob.glob('/verif/benign/*/')):
+    bid=os.path.basename(d.rstrip('/'))
+    try: m=json.load(open(d+'meta.json'))
+    except Exception: continue
+    det=open(d+'detection.txt').read() if os.path.exists(d+'detection.txt') else ''
+    runs=re.findall(r'check=(\S+) tier=\S+ exit=(\d+) violations=(\d+)',det)
+    alarms=[c for c,e,v in runs if e!='0']
+    summ=(m.get('summary') or '').replace('|','/').replace('\n',' ')
+    if len(summ)>200: summ=summ[:197]+'...'
+    obs=(m.get('what_changes_observably') or '').replace('|','/').replace('\n',' ')
+    if len(obs)>200: obs=obs[:197]+'...'
+    brows.append((bid,summ,obs,f"{len(runs)} checks run; "+("all silent" if not alarms else "ALARM: "+", ".join(alarms)) if runs else 'not run yet'))
+if brows:
+    out.append("\n### 14.1 Behaviour-preserving changes: do the checks stay silent?\n")
+    out.append("The opposite probe: independent sub-agents were given all 18 property texts and asked for real, observable")
+    out.append("changes to the library (other spellings, other error texts, equivalent algorithms and data structures, different")
+    out.append("behaviour outside every quantifier) that keep every property, with an argument per property. Each was applied in a")
+    out.append("scratch worktree, the repository's tests re-run, and the quick tier of ALL 18 checks run (`tools/try_benign.sh`).")
+    out.append("An alarm here is a false alarm of the machinery unless the change turns out to break a property after all; the")
+    out.append("bring-up log (section 15) records what was found and corrected.\n")
+    out.append("| change | what it does | what changes observably | result |")
+    out.append("|---|---|---|---|")
+    for r in brows: out.append("| "+" | ".join(r)+" |")
+    nb=sum(1 for r in brows if 'all silent' in r[3])
+    out.append(f"\nSummary: {nb} of {len(brows)} behaviour-preserving changes pass all 18 quick tiers without a VIOLATION line.")
 text="\n".join(out)+"\n"
 p='/verif/DESIGN.md'; s=open(p).read()
 a=s.find("## 14. Detection results")
